@@ -51,6 +51,12 @@ EACH change:
      violation of the property as stated, not of something stronger than the property says.
   4. the two changes should be in different mechanisms (different functions/templates/files) and have different
      kinds of trigger.
+  5. Earlier rounds of this exercise produced many changes inside iohelp/iohelp.go's primitive readers/writers and in
+     comment tokenizing. Prefer something else this time where the property allows it: the generator's templates and
+     emitters (gen*.go - changes there are fine as long as the suite's golden outputs under testdata do not change,
+     i.e. the change only affects type shapes / option combinations / import situations the testdata schemas do not
+     contain), the parser's pending state, Validate, the formatter's token-stream logic, import resolution, the
+     command-line tools, or state that survives from one call/record/definition to the next.
 Read the code first; look for shortcuts, special cases, counters, cursors, shared buffers, thresholds, lookup tables
 keyed by type name, pending-state flags, and places where two code paths must agree.
 
